@@ -75,6 +75,9 @@ func init() {
 		j = mk("c18.ensureCapacity", rootPkg, "ZZ_C18_EnsureCapacity", map[string]int{"maxM": maxM}, func(b *Bounds) { b.ConcretiseMax = 300; b.Unwind = 12 })
 		j.Labels = []string{"c18.ensure.len", "c18.ensure.noshrink", "c18.ensure.zeroed"}
 		js = append(js, j)
+		for _, j := range js {
+			j.Prefer = "bits"
+		}
 		return js
 	}
 }
@@ -153,6 +156,68 @@ func init() {
 		}
 		j := mk("c03.canary", rootPkg, "ZZ_C03_ExpiredUnswept", with(cfgParams(2, 0, 0, 10, 1, 0), "op", 0, "canary", 1), func(b *Bounds) { b.Unwind = 8 })
 		j.Canary = "c03.canary"
+		js = append(js, j)
+		return js
+	}
+}
+
+func init() {
+	registry["C01"] = func(tier string) []*Job {
+		var js []*Job
+		type cf struct {
+			name                 string
+			exp, ref, bound, max int
+		}
+		cfgs := []cf{{"be_accessing", 3, 0, 0, 0}, {"bew_custom", 4, 0, 2, 100}}
+		if tier == "thorough" {
+			cfgs = nil
+			for _, bd := range []int{0, 1, 2} {
+				for exp := 0; exp <= 4; exp++ {
+					for _, ref := range []int{0, 1, 2} {
+						cfgs = append(cfgs, cf{sprintf("b%d.e%d.r%d", bd, exp, ref), exp, ref, bd, 100})
+					}
+				}
+			}
+		}
+		midset := 3
+		if tier == "thorough" {
+			midset = -1
+		}
+		for _, c := range cfgs {
+			// Set(1); op1 on key 1|2; op2 on key 1: every ordered pair of the 22 operations (thorough);
+			// quick: op1 from 8 representative operations
+			p := with(cfgParams(c.exp, c.ref, c.bound, c.max, 1, 0), "symtime", 1, "steps", 3, "nkeys", 2, "prefixset", 2, "opset", 0, "firstop", 0, "lastkeys", 1, "midset", midset)
+			j := mk("c01.sym."+c.name, rootPkg, "ZZ_C01_Seq", p, func(b *Bounds) { b.Unwind = 8; b.MaxPaths = 400000; b.MaxWallS = 900 })
+			js = append(js, j)
+		}
+		if tier == "thorough" {
+			for _, c := range []cf{{"be_writing", 2, 0, 0, 0}, {"be_accessing", 3, 0, 0, 0}, {"bew_custom", 4, 0, 2, 100}, {"ber", 1, 2, 0, 0}} {
+				p := with(cfgParams(c.exp, c.ref, c.bound, c.max, 1, 0), "symtime", 1, "steps", 3, "nkeys", 2, "prefixset", 2, "opset", 0, "firstop", -1, "lastkeys", 2, "midset", -1)
+				j := mk("c01.sym3."+c.name, rootPkg, "ZZ_C01_Seq", p, func(b *Bounds) { b.Unwind = 8; b.MaxPaths = 2000000; b.MaxWallS = 1500 })
+				js = append(js, j)
+			}
+		}
+		// family S2: same-goroutine executor (maintenance runs inside the operations), concrete clock offsets
+		// around the deadlines, symbolic weights, CleanUp among the operations
+		type cf2 struct {
+			name                 string
+			exp, ref, bound, max int
+		}
+		s2 := []cf2{{"bs_max2", 0, 0, 1, 2}, {"bse_writing_max2", 2, 0, 1, 2}, {"bew_accessing_w100", 3, 0, 2, 100}}
+		if tier == "thorough" {
+			s2 = append(s2, cf2{"be_custom", 4, 0, 0, 0}, cf2{"bser_max1", 1, 2, 1, 1}, cf2{"bw_w100", 0, 0, 2, 100}, cf2{"bse_accessing_max3", 3, 0, 1, 3})
+		}
+		for _, c := range s2 {
+			steps := 1
+			if tier == "thorough" && c.bound != 2 {
+				steps = 2
+			}
+			p := with(cfgParams(c.exp, c.ref, c.bound, c.max, 0, 0), "steps", steps)
+			j := mk("c01.sync."+c.name, rootPkg, "ZZ_C01_Sync", p, func(b *Bounds) { b.Unwind = 70; b.MaxPaths = 400000; b.MaxWallS = 900 })
+			js = append(js, j)
+		}
+		j := mk("c01.canary", rootPkg, "ZZ_C01_Seq", with(cfgParams(2, 0, 0, 0, 1, 0), "symtime", 1, "steps", 2, "nkeys", 1, "prefixset", 2, "opset", 2, "canary", 1, "firstop", 0, "lastkeys", 1, "midset", -1), func(b *Bounds) { b.Unwind = 8 })
+		j.Canary = "c01.canary"
 		js = append(js, j)
 		return js
 	}
